@@ -50,6 +50,8 @@ EvalClass == {"ok", "unknown-as-set", "error-E", "error-F", "malformed-annotatio
               "fset-regex", "fset-peeras", "fset-attr"}
 C03Cases == {[installed |-> i, class |-> c] : i \in BOOLEAN, c \in {"unknown-as-set", "error-E", "error-F", "malformed-annotation",
                                                                       "peeras", "aspath-regex", "attr-match", "fset-regex", "fset-peeras"}}
+(* ... installed without any prefixes (what the agent installs for a set that evaluates to nothing): still installed, still managed *)
+C03EmptyCases == {[installed |-> TRUE, empty |-> TRUE, class |-> c] : c \in {"unknown-as-set", "error-E", "error-F", "peeras", "fset-regex"}}
 C15Cases == {q \in UNION {[1..k -> EvalClass \ {"malformed-annotation"}] : k \in 2..3} :
                (\E i \in 1..Len(q) : q[i] # "ok") /\ (\E i \in 1..Len(q) : q[i] = "ok")}
             (* ... and sets none of whose members can be evaluated: the run has other work (an orphan to delete) and *)
@@ -125,7 +127,7 @@ ForeignCases == {[shape |-> sh, target |-> t] : sh \in ForeignShapes, t \in {"sa
 Out ==
   CASE Family = "hist"  -> ToJson([cases |-> {[k \in 1..Depth |-> StatusJ(h[k])] : h \in Histories}])
     [] Family = "fault" -> ToJson([cases |-> {c \in FaultCases : FaultOk(c)}])
-    [] Family = "c03"   -> ToJson([cases |-> C03Cases])
+    [] Family = "c03"   -> ToJson([cases |-> C03Cases \cup C03EmptyCases])
     [] Family = "c15"   -> ToJson([cases |-> C15Cases])
     [] Family = "shape" -> ToJson([cases |-> ShapeCases])
     [] Family = "shapehist" -> ToJson([cases |-> ShapeHistories])
